@@ -215,6 +215,10 @@ Lemma sexec_try b cs f : sexec cm funs clos (S n) vs fn (STry b cs f) fr g =
       end
   end.
 Proof. reflexivity. Qed.
+Lemma sexec_ifinst x T t e : sexec cm funs clos (S n) vs fn (SIfInst x T t e) fr g =
+  if (match srd vs fn x fr g with VObj _ _ _ => cm T (srd vs fn x fr g) | _ => false end)
+  then sexec cm funs clos n vs fn t fr g else sexec cm funs clos n vs fn e fr g.
+Proof. reflexivity. Qed.
 Lemma sexec_throw e : sexec cm funs clos (S n) vs fn (SThrow e) fr g =
   match ev e fr g with
   | Res (EV v) fr g => Res (IThrow (thrown_of v)) fr g
@@ -437,6 +441,43 @@ Lemma seval_callv cf f a fr g : seval cf funs clos vs fn (ECallV f a) fr g =
       | Fuel => Fuel
       end
   | Res (EV _) fr g => Res (EX (VErr "not callable")) fr g
+  | r => r
+  end.
+Proof. reflexivity. Qed.
+
+Lemma seval_prop cf e fr g : seval cf funs clos vs fn (EProp e) fr g =
+  match seval cf funs clos vs fn e fr g with
+  | Res (EV v) fr g =>
+      match obj_id v with
+      | Some i => Res (EV (hget i (gheap g))) fr g
+      | None => Res (EX (VErr "property of a non-object")) fr g
+      end
+  | r => r
+  end.
+Proof. reflexivity. Qed.
+
+Lemma seval_setprop cf e w fr g : seval cf funs clos vs fn (ESetProp e w) fr g =
+  match seval cf funs clos vs fn w fr g with
+  | Res (EV wv) fr g =>
+      match seval cf funs clos vs fn e fr g with
+      | Res (EV v) fr g =>
+          match obj_id v with
+          | Some i => Res (EV wv) fr (set_prop i wv g)
+          | None => Res (EX (VErr "property of a non-object")) fr g
+          end
+      | r => r
+      end
+  | r => r
+  end.
+Proof. reflexivity. Qed.
+
+Lemma seval_hi cf e fr g : seval cf funs clos vs fn (EHi e) fr g =
+  match seval cf funs clos vs fn e fr g with
+  | Res (EV v) fr g =>
+      match obj_id v with
+      | Some i => Res (EV (VStr ("hi" ++ to_str (hget i (gheap g))))) fr g
+      | None => Res (EX (VErr "method call on a non-object")) fr g
+      end
   | r => r
   end.
 Proof. reflexivity. Qed.
